@@ -104,7 +104,9 @@ func GetPosition(ast MalType) *Position {
 		// throw or assert
 		return nil
 	default:
-		panic(fmt.Errorf("GetPosition(%T)", value))
+		// any other node (numbers, strings, functions...) carries no position;
+		// creating an error must never panic
+		return nil
 	}
 }
 
